@@ -6,7 +6,7 @@
      marks_* x ..    : no cached Infeasible mark sits on a node whose closed path polytope contains x
    Nothing is assumed about Error / Unbounded / Optimal answers or about the mirror heuristic.  For an oracle that
    is sound only up to thin regions the conclusions hold for every x outside the polytopes it declared infeasible. *)
-From AT Require Import Num Vec Aff PTree Cells Abs Cache Elim ElimEval ElimCache ElimEff CPrune CPruneEval Ops ElimExample.
+From AT Require Import Num Vec Aff PTree Cells Abs Cache Elim ElimEval ElimCache ElimEff CPrune CPruneEval Ops ElimExample SkipOnlyIf.
 
 (* infeasible_elimination: defined exactly where it was defined, with the same value *)
 Theorem C03_elim_preserves : forall o tol t x, osound o x -> marks_kids x [] t ->
@@ -46,6 +46,20 @@ Theorem C03_edge_dropped_only_if_infeasible : forall o tol top st q ql k k' x,
   ~ in_rows ql x.
 Proof. exact explore_false. Qed.
 
+(* a decision is skipped only when its other branch is a path no input can take: if the node that ends up in the
+   place of decision i is not decision i (it was replaced by one of its branches), one of the two closed branch
+   regions excludes x -- for every x the oracle's Infeasible answers and the cached marks treat soundly *)
+Theorem C03_skip_only_if_elim : forall o tol x i p s' c0 c1 q st k, osound o x ->
+  marks_kids x q (CN i false p s' c0 c1) -> in_rows q x ->
+  c_idx (fst (elim_sub o tol false q st (CN i false p s' c0 c1) k)) <> Some i ->
+  ~ in_rows (q ++ [row0 p]) x \/ ~ in_rows (q ++ [row1 p]) x.
+Proof. exact elim_skip_only_if. Qed.
+Theorem C03_skip_only_if_compose : forall o tol s tf x p l0 l1 top st i q k, osound o x ->
+  (st = Infeas -> ~ in_rows q x) -> in_rows q x ->
+  ~ is_dec_at i (s_dec s p tf) (fst (graftp o tol s tf (D p [l0; l1]) top st i q k)) ->
+  ~ in_rows (q ++ [row0 (s_dec s p tf)]) x \/ ~ in_rows (q ++ [row1 (s_dec s p tf)]) x.
+Proof. exact graftp_skip_only_if. Qed.
+
 (* non-vacuity: a concrete tree and oracle meeting every hypothesis for every x, on which elimination removes an
    infeasible terminal and replaces a decision by its remaining branch *)
 Example C03_nonvacuous :
@@ -62,4 +76,6 @@ Print Assumptions C03_ops_prune.
 Print Assumptions C03_generic_prune.
 Print Assumptions C03_infeasible_only_from_oracle.
 Print Assumptions C03_edge_dropped_only_if_infeasible.
+Print Assumptions C03_skip_only_if_elim.
+Print Assumptions C03_skip_only_if_compose.
 Print Assumptions C03_nonvacuous.
